@@ -413,6 +413,56 @@ fn slice_overflow() -> serde_json::Value {
     json!({"found": false, "routine": "slice_overflow", "tried": 3})
 }
 
+// C09: Concatenate of operands whose dimensions along the axis sum to 2^64 or more must be rejected when the node is added
+fn concat_overflow() -> serde_json::Value {
+    let cases: Vec<(Vec<u64>, &str)> = vec![(vec![1u64 << 63, 1u64 << 63], "2^63 + 2^63"), (vec![1u64 << 63, 1u64 << 63, 5], "2^63 + 2^63 + 5"), (vec![u64::MAX, 1], "(2^64-1) + 1")];
+    for (dims, label) in cases {
+        let r = catch_unwind(AssertUnwindSafe(|| -> std::result::Result<Option<String>, String> {
+            let c = create_context().map_err(|e| e.to_string())?;
+            let g = c.create_graph().map_err(|e| e.to_string())?;
+            let mut ins = vec![];
+            for d in &dims { ins.push(g.zeros(array_type(vec![*d], BIT)).map_err(|e| e.to_string())?); }
+            match g.concatenate(ins, 0) { Ok(n) => Ok(Some(format!("{}", n.get_type().map_err(|e| e.to_string())?))), Err(_) => Ok(None) }
+        }));
+        match r {
+            Err(_) => return json!({"found": true, "routine": "concat_overflow", "property": "C09", "input": {"operand_shapes": dims.iter().map(|d| format!("[{}]", d)).collect::<Vec<_>>(), "axis": 0, "sum": label},
+                "expected": "Err(..) when the node is added", "observed": "panic: attempt to add with overflow (type_inference.rs, Concatenate arm)", "what": "g.concatenate on g.zeros(bit[d]) operands"}),
+            Ok(Ok(Some(t))) => return json!({"found": true, "routine": "concat_overflow", "property": "C09", "input": {"operand_shapes": dims.iter().map(|d| format!("[{}]", d)).collect::<Vec<_>>(), "axis": 0, "sum": label},
+                "expected": "Err(..) when the node is added", "observed": format!("node accepted with the wrapped-around type {}", t), "what": "g.concatenate on g.zeros(bit[d]) operands"}),
+            _ => {}
+        }
+    }
+    json!({"found": false, "routine": "concat_overflow", "tried": 3})
+}
+
+// C09: ill-typed nodes are rejected when they are added (Err), neither accepted nor a panic
+fn typing_rejects() -> serde_json::Value {
+    type B = Box<dyn Fn(&Graph) -> Result<ciphercore_base::graphs::Node>>;
+    let a = |g: &Graph, sh: Vec<u64>| g.input(array_type(sh, INT32));
+    let cases: Vec<(&str, B)> = vec![
+        ("Concatenate([i32[2,3], i32[1,3]], axis 1): dimension 0 differs", Box::new(move |g| g.concatenate(vec![a(g, vec![2, 3])?, a(g, vec![1, 3])?], 1))),
+        ("Concatenate([i32[2,3,4], i32[2,5,1]], axis 1): dimension 2 differs", Box::new(move |g| g.concatenate(vec![a(g, vec![2, 3, 4])?, a(g, vec![2, 5, 1])?], 1))),
+        ("Concatenate([i32[2,3,4], i32[1,3,4], i32[2,3,4]], axis 2): dimension 0 differs", Box::new(move |g| g.concatenate(vec![a(g, vec![2, 3, 4])?, a(g, vec![1, 3, 4])?, a(g, vec![2, 3, 4])?], 2))),
+        ("Concatenate([i32[2,3], i32[2,3]], axis 2): axis out of range", Box::new(move |g| g.concatenate(vec![a(g, vec![2, 3])?, a(g, vec![2, 3])?], 2))),
+        ("Concatenate([i32[2,3], i32[2]], axis 0): ranks differ", Box::new(move |g| g.concatenate(vec![a(g, vec![2, 3])?, a(g, vec![2])?], 0))),
+        ("Stack([i32[2], i32[3]], [2]): not broadcastable", Box::new(move |g| g.stack(vec![a(g, vec![2])?, a(g, vec![3])?], vec![2]))),
+        ("Stack([i32[2]], [2]): wrong number of operands", Box::new(move |g| g.stack(vec![a(g, vec![2])?], vec![2]))),
+        ("Get(i32[2,3], [2]): index out of range", Box::new(move |g| a(g, vec![2, 3])?.get(vec![2]))),
+        ("Get(i32[2,3], [0,0,0]): too many indices", Box::new(move |g| a(g, vec![2, 3])?.get(vec![0, 0, 0]))),
+    ];
+    let mut tried = 0;
+    for (name, build) in cases {
+        tried += 1;
+        let r = catch_unwind(AssertUnwindSafe(|| { let c = create_context().unwrap(); let g = c.create_graph().unwrap(); build(&g).map(|n| format!("{}", n.get_type().unwrap())) }));
+        match r {
+            Err(_) => return json!({"found": true, "routine": "typing_rejects", "property": "C09", "input": {"node": name}, "expected": "Err(..) when the node is added", "observed": "panic"}),
+            Ok(Ok(t)) => return json!({"found": true, "routine": "typing_rejects", "property": "C09", "input": {"node": name}, "expected": "Err(..) when the node is added", "observed": format!("node accepted with type {}", t)}),
+            Ok(Err(_)) => {}
+        }
+    }
+    json!({"found": false, "routine": "typing_rejects", "tried": tried})
+}
+
 // C10: elementwise arithmetic of the evaluator vs. wrapping reference arithmetic on special values of every width
 fn arith_kernels(seed: u64) -> serde_json::Value {
     let mut rng = Rng(seed | 1);
@@ -722,6 +772,8 @@ fn main() {
         Some("value_corrupt") => value_corrupt(),
         Some("truncate2k_large_k") => truncate2k_large_k(),
         Some("slice_overflow") => slice_overflow(),
+        Some("typing_rejects") => typing_rejects(),
+        Some("concat_overflow") => concat_overflow(),
         Some("arith_kernels") => arith_kernels(seed),
         Some("cmp_small_widths") => cmp_small_widths(seed),
         Some("share_roundtrip") => share_roundtrip(seed),
